@@ -1,6 +1,7 @@
 SPECIFICATION Spec
 CONSTANT N = 4
 CONSTANT AMax = 1
+CONSTANT TinyOnly = FALSE
 CONSTANT EMax = 1
 INVARIANT RadixOk
 INVARIANT LexIsFlatInv
